@@ -134,10 +134,16 @@ func init() {
 		if t == tFalse {
 			panic(pathAbort{"assume false"})
 		}
-		if t != tTrue && !ex.feasible(t) {
-			panic(pathAbort{"assume infeasible"})
+		if t != tTrue {
+			ok, m := ex.feasibleM(t)
+			if !ok {
+				panic(pathAbort{"assume infeasible"})
+			}
+			if m != nil {
+				ex.model = m
+			}
 		}
-		ex.assume(t)
+		ex.assume(boolTerm(args[0]))
 		return nil
 	})
 	reg(rt+"Assert", func(ex *Exec, fn *ssa.Function, args []Value, site string) Value {
